@@ -1,5 +1,6 @@
 import Nstd.Common.Basic
 import Nstd.Server.ModelC13
+import Nstd.Server.ModelC14
 /-
   Line protocol of the Server area.  Two dialects share one driver (and one harness):
 
@@ -12,6 +13,20 @@ import Nstd.Server.ModelC13
      peersend <hex> / peerread      the peer writes / reads everything that arrived
      suspend / resume
      outcome = wb | err | all | half | <count>
+
+  C14 (timers, clients, listeners, establishers under virtual time; every op prints
+       `<events or ok> | <live objects with their epoll interest> clk=<virtual clock>`):
+     script <id> <k> <acts>     the k-th callback on object <id> performs <acts> (comma separated):
+                                mk:<id>:<interval> rmt:<id> rmc:<id> rml:<id> rme:<id> rmnew null intr
+                                sus:<id> res:<id> rd:<id> wr:<id>:<n>:<outcome>      (`-` = none)
+     act <act>                  the same API call at top level
+     mkpair <id> | mklisten <id> | mkconn <id>     Server::pair / listen / connect
+     psend <id> <n> | pclose <id> | dial <id> | adv <ms>     environment
+     run <outcome> <entry>...   Server::run(); one entry per epoll_wait call:
+                                [I][<id>,<id>,...|-][+<ms>]  (I = interrupt() arrives during the call;
+                                ids = sockets the kernel reports, in this order, if really ready;
+                                no event: the clock advances by the time-out, else by <ms>);
+                                after the last entry every further call is `I`
 -/
 open Nstd.Common
 namespace Nstd.Server
@@ -81,8 +96,138 @@ def obs (s : St) (o : Out) : String :=
 
 end C13
 
+namespace C14
+
+def parseAct (t : String) : Option Act :=
+  match t.splitOn ":" with
+  | ["mk", i, iv] => do
+    let iv ← iv.toNat?
+    if iv = 0 then none else pure (.mkTimer (← i.toNat?) iv)
+  | ["rmt", i] => do pure (.rmTimer (← i.toNat?))
+  | ["rmc", i] => do pure (.rmClient (← i.toNat?))
+  | ["rml", i] => do pure (.rmListener (← i.toNat?))
+  | ["rme", i] => do pure (.rmEst (← i.toNat?))
+  | ["rmnew"] => some .rmNew
+  | ["null"] => some .retNull
+  | ["intr"] => some .interrupt
+  | ["sus", i] => do pure (.suspend (← i.toNat?))
+  | ["res", i] => do pure (.resume (← i.toNat?))
+  | ["rd", i] => do pure (.read (← i.toNat?))
+  | ["wr", i, n, o] => do pure (.write (← i.toNat?) (← n.toNat?) (← C13.parseOutcome o))
+  | _ => none
+
+def parseActs (t : String) : Option (List Act) :=
+  if t == "-" then some [] else (t.splitOn ",").mapM parseAct
+
+structure Entry where
+  intr : Bool
+  ids : List Id
+  dt : Nat
+
+def parseEntry (t : String) : Option Entry := do
+  let (intr, rest) := if t.startsWith "I" then (true, (t.drop 1).toString) else (false, t)
+  let (idsT, dt) ← match rest.splitOn "+" with
+    | [a] => some (a, 0)
+    | [a, b] => b.toNat?.map (fun d => (a, d))
+    | _ => none
+  let ids ← if idsT == "-" || idsT == "" then some [] else (idsT.splitOn ",").mapM (·.toNat?)
+  if !intr && idsT == "" then none else pure { intr := intr, ids := ids, dt := dt }
+
+def nativeNonZero (n : Native) : Bool := n.inn || n.out || n.hup
+
+def ioStr (f : Flags) : String :=
+  let i := f.r || f.a
+  let o := f.w || f.c
+  if i then (if o then "io" else "i") else (if o then "o" else "-")
+
+def interestStr (s : St) (i : Id) : String :=
+  match lookup s.sockets i with
+  | some f => ioStr f
+  | none => "none"
+
+def liveStr (s : St) : String :=
+  let items := s.order.filterMap fun i =>
+    if (s.timers i).isSome then some s!"t{i}"
+    else if (s.clients i).isSome then some s!"c{i}:{interestStr s i}"
+    else if (s.listeners i).isSome then some s!"l{i}:{interestStr s i}"
+    else if (s.ests i).isSome then some s!"e{i}:{interestStr s i}"
+    else none
+  (if items.isEmpty then "-" else " ".intercalate items) ++ s!" clk={s.clock}"
+
+def evStr (clk : Int) : Ev → String
+  | .activated t _ _ => s!"t{t}@{clk}"
+  | .onRead c => s!"c{c}.R@{clk}"
+  | .onWrite c => s!"c{c}.W@{clk}"
+  | .onClosed c => s!"c{c}.C@{clk}"
+  | .onAccepted l c => s!"l{l}.A{c}@{clk}"
+  | .onConnected e c => s!"e{e}.N{c}@{clk}"
+  | .onAbolished e => s!"e{e}.X@{clk}"
+  | .returned => s!"ret@{clk}"
+
+/-- the kernel's answer for one schedule entry (mirrors the harness' epoll_wait) -/
+def pollIn (s : St) (now : Int) (e : Entry) : PollIn :=
+  let evs := e.ids.eraseDups.filterMap fun i =>
+    let n := nativeOf s i
+    if nativeNonZero n then some (i, n) else none
+  let efd := s.eventfd != 0
+  let timeout := match s.queue with
+    | (k, _) :: _ => k - now
+    | [] => 0
+  { events := evs, eventfd := efd, dt := if evs.isEmpty && !efd then timeout else e.dt }
+
+def runLoop : Nat → St → C13.Outcome → List Entry → List String → St × List String
+  | 0, s, _, _, acc => (s, acc ++ ["FUEL"])
+  | fuel + 1, s, o, es, acc =>
+    match s.pc with
+    | .idle => (s, acc)
+    | .poll now =>
+      if s.selected.isEmpty then
+        let (e, es') : Entry × List Entry := match es with
+          | e :: r => (e, r)
+          | [] => ({ intr := true, ids := [], dt := 0 }, [])
+        let s0 := if e.intr then interrupt s else s
+        let (s', evs) := step s0 (pollIn s0 now e) o
+        runLoop fuel s' o es' (acc ++ evs.map (evStr s'.clock))
+      else
+        let (s', evs) := step s {} o
+        runLoop fuel s' o es (acc ++ evs.map (evStr s'.clock))
+    | _ =>
+      let (s', evs) := step s {} o
+      runLoop fuel s' o es (acc ++ evs.map (evStr s'.clock))
+
+def out (s : St) (res : String) : String :=
+  if s.fault then "MODEL-FAULT" else s!"{res} | {liveStr s}"
+
+def stepLine (s : St) (ws : List String) : Option (St × String) :=
+  match ws with
+  | ["script", i, k, acts] => do
+    let s' := setScript s (← i.toNat?) (← k.toNat?) (← parseActs acts)
+    pure (s', out s' "ok")
+  | ["act", a] => do
+    let s' := applyAct s none (← parseAct a)
+    pure (s', out s' "ok")
+  | ["mkpair", i] => do let s' := mkPair s (← i.toNat?); pure (s', out s' "ok")
+  | ["mklisten", i] => do let s' := mkListener s (← i.toNat?); pure (s', out s' "ok")
+  | ["mkconn", i] => do let s' := mkEst s (← i.toNat?); pure (s', out s' "ok")
+  | ["psend", i, n] => do
+    let n ← n.toNat?
+    if n = 0 then none
+    let s' := envStep s (.peerSend (← i.toNat?) n); pure (s', out s' "ok")
+  | ["pclose", i] => do let s' := envStep s (.peerClose (← i.toNat?)); pure (s', out s' "ok")
+  | ["dial", i] => do let s' := envStep s (.dial (← i.toNat?)); pure (s', out s' "ok")
+  | ["adv", d] => do let s' := envStep s (.advance (← d.toNat?)); pure (s', out s' "ok")
+  | "run" :: o :: entries => do
+    let o ← C13.parseOutcome o
+    let es ← entries.mapM parseEntry
+    let (s', evs) := runLoop 100000 (enterRun s) o es []
+    pure (s', out s' (if evs.isEmpty then "-" else " ".intercalate evs))
+  | _ => none
+
+end C14
+
 structure DState where
   s13 : C13.St := C13.init
+  s14 : C14.St := C14.init
 
 def stepLine (st : DState) (ws : List String) : DState × String :=
   match ws with
@@ -93,7 +238,10 @@ def stepLine (st : DState) (ws : List String) : DState × String :=
       match C13.step st.s13 op with
       | some (s', o) => ({ st with s13 := s' }, C13.obs s' o)
       | none => (st, "bad-op")
-    | none => (st, "bad-op")
+    | none =>
+      match C14.stepLine st.s14 ws with
+      | some (s', o) => ({ st with s14 := s' }, o)
+      | none => (st, "bad-op")
 
 end Nstd.Server
 
